@@ -381,6 +381,21 @@ fn list_inhabited(
                 if items.is_never() {
                     return list_inhabited(prefix_items, items, &neg.next, builder);
                 }
+                // Lists shorter than the negative's prefix escape it whatever their elements are;
+                // they are still subject to the remaining negatives.
+                let closed = Rc::new(SemTypeContext::never());
+                let mut shorter = prefix_items.clone();
+                for _k in len..neg_len {
+                    if let ListInhabited::Yes =
+                        list_inhabited(&mut shorter.clone(), &closed, &neg.next, builder)?
+                    {
+                        return Ok(ListInhabited::Yes);
+                    }
+                    if items.is_empty(builder)? {
+                        break;
+                    }
+                    shorter.push(items.clone());
+                }
                 for _i in len..neg_len {
                     prefix_items.push(items.clone());
                 }
